@@ -2104,9 +2104,11 @@ def extra_coverage(agg):
 
 
 RULE = (
-    "one evaluation = one seeded history of 3-12 operations (add, run_by_name, run_all, mpe, set_run_params, preprocessing, "
-    "save, load, restart, crash-during-save, PoSER construction, bare-setup gate) over 1-3 real setups and 2-6 real algorithm "
-    "instances of all classes, with numerical faults on the k-th numpy/scipy call of a run/mpe and disk faults inside save/load; "
+    "one evaluation = one seeded history of 3-12 (thorough: up to 18) operations (add, run_by_name, run_all, mpe, set_run_params "
+    "incl. withdrawal, preprocessing, save, load, restart, crash-during-save, next record in new objects with simulated address "
+    "reuse, algorithm object built anew, work on a shallow copy of a setup, PoSER construction, bare-setup gate) over 1-4 real "
+    "setups and 2-6 real algorithm instances of all classes, with numerical faults or Ctrl-C on the k-th numpy/scipy call of a "
+    "run/mpe and disk faults inside save/load; "
     "distinct = distinct history signature (world class + sequence of (operation kind, outcome class, fault kind)); "
     "non-trivial = a successful run that follows another algorithm's run on the same array, a repeated run, a run or mpe after a "
     "restart, a preprocessing call between adds, or a PoSER acceptance"
